@@ -305,6 +305,8 @@ class BufferCursor(Cursor):
     def _matchre_fast(self, pattern: str | re.Pattern | None) -> bool:
         if not (match := self._scanre(pattern)):
             return False
+        if not match.group():
+            return False  # an empty match makes no progress: stop eating
 
         self.move(len(match.group()))
         return True
@@ -643,6 +645,8 @@ class Buffer(Text):
     def _matchre_fast(self, pattern: str | re.Pattern | None) -> bool:
         if not (match := self._scanre(pattern)):
             return False
+        if not match.group():
+            return False  # an empty match makes no progress: stop eating
 
         self.move(len(match.group()))
         return True
